@@ -518,7 +518,8 @@ void block_approx_ideal_restriction_pass2(const I Rp[], const int Rp_size,
         }
 
         // Solve local linear system for each row in block
-        if (use_gmres) {
+        // (nothing to solve if the C-point has no F-point in its neighborhood)
+        if (size_N > 0 && use_gmres) {
                 
             // Apply GMRES to right-hand-side for each DOF in block
             std::vector<T> rhs(num_DOFs);
@@ -536,7 +537,7 @@ void block_approx_ideal_restriction_pass2(const I Rp[], const int Rp_size,
                             is_col_major, maxiter, precondition);
             }
         }
-        else {
+        else if (size_N > 0) {
             // Take QR of local matrix for linear solves, R stored in A0
             std::vector<T> Q = QR(&A0[0], num_DOFs, num_DOFs, is_col_major);
             
